@@ -84,7 +84,9 @@ fn check_pca(case: &ProjCase, ctx: &mut Ctx) -> Result<(), Fail> {
     ctx.nontrivial(p >= 3 && k < p);
     let xm = <DenseB as Build<f64>>::build(x);
     let r = catch(|| {
-        let m = PCA::fit(&xm, PCAParameters::default().with_n_components(k).with_use_correlation_matrix(case.correlation)).map_err(|e| e.to_string())?;
+        // builder calls in two orders (a setter that rebuilds from the defaults would lose earlier settings)
+        let params = if (n + k) % 2 == 0 { PCAParameters::default().with_n_components(k).with_use_correlation_matrix(case.correlation) } else { PCAParameters::default().with_use_correlation_matrix(case.correlation).with_n_components(k) };
+        let m = PCA::fit(&xm, params).map_err(|e| e.to_string())?;
         let t = m.transform(&xm).map_err(|e| e.to_string())?;
         let top = m.transform(&<DenseB as Build<f64>>::build(&x.slice(0, case.split, 0, p))).map_err(|e| e.to_string())?;
         let bot = if case.split < n { Some(m.transform(&<DenseB as Build<f64>>::build(&x.slice(case.split, n, 0, p))).map_err(|e| e.to_string())?) } else { None };
